@@ -155,11 +155,33 @@ Definition predict_conc (cas : bool) (clients : list N) (ops : tval) : tval :=
   VL [VL (map (fun lo => match lo with TFindDone r => enc_tres r | TDone => VL [] | _ => VL [VN 9] end) (snd s));
       VL (map (fun x => enc_tres (tfind (fst s) x)) clients)].
 
+(* ---- mode 3: a concurrent phase of the client runtime-state service (Model/ClientState.v rstep; one schedule entry = one
+   GetState / SetState / DeleteState of that invocation).
+   ops = [ setup [[4; n; c; x] ...] (sequential ConnectClient) ; threads [[4|5|6; n; c; x] ...] ; executed schedule ]
+   obs = per node: per client: [kind; n; c] read from the record after the phase *)
+Definition dec_rprog (v : tval) : rprog :=
+  let n := vn (vnth 1 v) in let c := vn (vnth 2 v) in let x := vn (vnth 3 v) in
+  match vn (vnth 0 v) with
+  | 4 => RConnect x n c
+  | 5 => REnsure x n c
+  | 6 => RDisc x n c
+  | _ => RDone
+  end.
+Definition rseq (sh : rstate) (p : rprog) : rstate :=
+  let '(p1, s1) := rstep p sh in let '(_, s2) := rstep p1 s1 in s2.
+Definition state_final (ops : tval) : rstate :=
+  let sh0 := fold_left rseq (map dec_rprog (vl (vnth 0 ops))) rs_empty in
+  fst (rrun (sh0, map dec_rprog (vl (vnth 1 ops))) (map vnat (vl (vnth 2 ops)))).
+Definition check_state_conc (clients : list N) (ops obs : tval) : bool :=
+  let sh := state_final ops in
+  forallb (fun node_obs => all2 fres_eqb (map (fun x => rs_of (sh x)) clients) (vl node_obs)) (vl obs).
+
 Definition check (c : tval) : bool :=
   let v := dec_variant (vnth 0 c) in
   let b := dec_backend (vnth 1 c) in
   let ttl := vn (vnth 2 c) in
   let clients := map vn (vl (vnth 4 c)) in
+  if vn (vnth 3 c) =? 3 then check_state_conc clients (vnth 5 c) (vnth 6 c) else
   if vn (vnth 3 c) =? 2 then check_conc (vbool (vnth 4 (vnth 0 c))) clients (vnth 5 c) (vnth 6 c) else
   if vn (vnth 3 c) =? 0
   then check_store v b ttl clients (0, empty_store) (vl (vnth 5 c)) (vl (vnth 6 c))
@@ -193,6 +215,7 @@ Definition predict (c : tval) : tval :=
   let b := dec_backend (vnth 1 c) in
   let ttl := vn (vnth 2 c) in
   let clients := map vn (vl (vnth 4 c)) in
+  if vn (vnth 3 c) =? 3 then VL (map (fun x => enc_fres_rs (rs_of (state_final (vnth 5 c) x))) clients) else
   if vn (vnth 3 c) =? 2 then predict_conc (vbool (vnth 4 (vnth 0 c))) clients (vnth 5 c) else
   if vn (vnth 3 c) =? 0
   then VL (predict_store v b ttl clients (0, empty_store) (vl (vnth 5 c)))
